@@ -55,14 +55,20 @@ func Dot(spec *Spec, w io.WriteCloser, fromNode, toNode string) error {
 
 	seen := make(map[string]bool)
 	node := func(name string, n *Node) error {
-		if n == nil {
-			return fmt.Errorf("unknown node '%s'", name)
-		}
-
 		if _, already := seen[name]; already {
 			return nil
 		}
 		seen[name] = true
+
+		if n == nil {
+			// A branch target that is not a node of the spec (a
+			// missing node or a branch target variable).  Show
+			// it, so that the branch can be drawn and the other
+			// branches of the node are not lost.
+			fmt.Fprintf(w, "  %s [shape=\"record\", style=\"dashed\", color=\"red\", fillcolor=\"white\", label=<%s> ]\n",
+				name, name)
+			return nil
+		}
 		label := name
 		if n.Doc != "" {
 			doc := n.Doc
